@@ -9,6 +9,13 @@
 // dispatch.Dispatcher on a REAL agentstorage or originstorage torrent, glued
 // together the way scheduler.state.addIncomingConn does it.
 //
+// Scheduler-level families (sched.go): the whole hostile handshake alphabet is
+// also delivered to a REAL started scheduler over loopback TCP, as the ANSWER to
+// a handshake the agent sent on a connection it dialled itself (fake tracker
+// hand-out -> initializeOutgoingHandshake -> Handshaker.Initialize ->
+// outgoingConnEvent -> addOutgoingConn -> Dispatcher.AddPeer) and through the
+// scheduler's real listener, for torrents of 3, 64 and 65 pieces.
+//
 // Cases run in worker subprocesses of this binary (RLIMIT_AS + memory limit):
 // a panic in a kraken-owned goroutine or a runaway allocation kills only the
 // worker, which has written the case id to a pipe before executing it.
@@ -401,9 +408,9 @@ func parentMain() {
 		}
 		os.Exit(0)
 	}
-	budget := 50 * time.Second
+	budget := 70 * time.Second
 	if run.Thorough() {
-		budget = 11 * time.Minute
+		budget = 12 * time.Minute
 	}
 	if v, err := strconv.Atoi(os.Getenv("VERIF_C14_BUDGET_S")); err == nil && v > 0 {
 		budget = time.Duration(v) * time.Second // development aid
@@ -570,18 +577,23 @@ func parentMain() {
 	if run.Thorough() {
 		maxBody = 3
 	}
-	run.Rule = fmt.Sprintf("one evaluation = one hostile input written as raw bytes to the real Handshaker/Conn/Dispatcher of a fresh victim (agent torrent with 1 of 3 pieces, origin torrent) next to an honest second connection; families: %s. wire/hsraw = every byte string of length <= %d as message / handshake body; grid = boundary grid index%v x offset%v x length%v per PIECE_REQUEST/PIECE_PAYLOAD (x payload bytes good/corrupt/short/long/none); msg = index grid for ANNOUNCE/CANCEL/ERROR, every type without body / with another type's body / unknown types; hs = bitfield length header x 0..3 words x pattern, truncated/trailing bytes, remote-bitfield map keys x values, peer id / info hash / name / namespace values, wrong message shapes; hs+msg and pair = follow-ups and ordered pairs over a reduced alphabet. distinct = outcome class (family, victim, input kind, connection outcome, reply types, pieces written)",
-		strings.Join(famDesc, " "), maxBody, idxGrid, offGrid(run.Thorough()), lenGrid)
-	run.Assume("small scope: one 10-byte blob in 3 pieces of 4/4/2 bytes; agent holds piece 0; fields take boundary values only; bodies up to " + strconv.Itoa(maxBody) + " bytes exhaustively, longer bodies only through the structured grids")
-	run.Assume("the scheduler glue between Handshaker and Dispatcher (Accept -> Stat -> Establish -> Start -> AddPeer) is re-stated in the harness; connstate limits and the event loop are not part of this check (C16/C17)")
+	run.Rule = fmt.Sprintf("one evaluation = one hostile input written as raw bytes to the real Handshaker/Conn/Dispatcher of a fresh victim (agent torrent with 1 of 3 pieces, origin torrent) next to an honest second connection; families: %s. wire/hsraw = every byte string of length <= %d as message / handshake body; grid = boundary grid index%v x offset%v x length%v per PIECE_REQUEST/PIECE_PAYLOAD (x payload bytes good/corrupt/short/long/none); msg = index grid for ANNOUNCE/CANCEL/ERROR, every type without body / with another type's body / unknown types; hs = bitfield length header x 0..3 words x pattern, truncated/trailing bytes, remote-bitfield map keys x values, peer id / info hash / name / namespace values, wrong message shapes; hs+msg and pair = follow-ups and ordered pairs over a reduced alphabet. sched = {agent scheduler x direction out (the agent dials the hostile peer named by a fake tracker answer; hostile peer handed out as agent / as origin) | agent scheduler x direction in | origin scheduler x direction in} x torrent of %v pieces x start state %v x the whole hs alphabet built for that piece count (bitfield: length header{0,1,n-1,n,n+1,63,64,65,128,2^16,2^26,2^36,2^63,max} x 0..3 words x pattern%v), delivered over loopback TCP to a real started scheduler next to an honest second connection; sched+msg = the same start parameters (3 pieces) x accepted handshake shapes x one follow-up message. distinct = outcome class (family, victim, direction, pieces, input kind, connection outcome, reply types, pieces written)",
+		strings.Join(famDesc, " "), maxBody, idxGrid, offGrid(run.Thorough()), lenGrid, shapeSizes(), schedStarts(run.Thorough()), bitfieldPatterns)
+	run.Assume("small scope: one 10-byte blob in 3 pieces of 4/4/2 bytes (sched family also: 127 bytes in 64 pieces and 129 bytes in 65 pieces of 2 bytes, last piece 1 byte); agent holds piece 0; fields take boundary values only; bodies up to " + strconv.Itoa(maxBody) + " bytes exhaustively, longer bodies only through the structured grids")
+	run.Assume("families msg/grid/hs/hs+msg/pair: the scheduler glue between Handshaker and Dispatcher (Accept -> Stat -> Establish -> Start -> AddPeer) is re-stated in the harness. Families sched/sched+msg: nothing is re-stated, the victim is a real started scheduler (newScheduler+start as NewAgentScheduler/NewOriginScheduler do, through an in-package export): real event loop goroutine, listener, Handshaker.Initialize/Accept/Establish, connstate, dispatcher, agentstorage/originstorage; seams are the tracker (announceclient.Client answering the first announce with [honest seeder, hostile peer]), the metainfo client and the origin's empty backend manager; connstate limits and event orders are C16/C17")
+	run.Assume("sched families: the hostile and the honest peer are loopback TCP endpoints of the harness; the hostile input is released only after the honest connection is active (the agent has requested every missing piece from the honest seeder; the origin has served it a piece); the hostile peer ends its input with a chunked PIECE_REQUEST{index:32429 offset:1} and the case continues when the dispatcher's ERROR answer to it, or the end of the connection, has been read; afterwards the scheduler must answer Probe, the honest seeder delivers every piece and the agent's Download must return nil with the blob's bytes in the cache (origin: the honest leecher is served piece 0); dispatch pipeline limit 128 so that all pieces are requested from the first seeder; scheduler wall-clock limits (handshake, probe) set to 110 s, beyond any case")
+	run.Assume("'bitfield of the wrong size' (must be rejected or end the connection) = undecodable, declared bit count != number of pieces, or a bit set at an index >= number of pieces in the decoded words; trailing bytes after the decoded words are not decided by the statement")
 	run.Assume("allocation bound: at most 2 MiB allocated while one attacker connection is processed (message cap 32 KiB, pieces of 4 bytes); measured with runtime/metrics, backed by RLIMIT_AS = start size + 1.5 GiB in the worker process")
-	run.Assume("a recording dispatch.Messages wrapper sits between the real Dispatcher and the real Conn and reads piece payload readers in the dispatching goroutine; outgoing dials (Handshaker.Initialize) are not exercised, they share readHandshake/handshakeFromP2PMessage with Accept")
+	run.Assume("families msg/grid/hs/hs+msg/pair: a recording dispatch.Messages wrapper sits between the real Dispatcher and the real Conn and reads piece payload readers in the dispatching goroutine (no wrapper in the sched families: replies are read from the socket)")
 	run.Assume("determinisation of two kraken-internal races: a synthetic no-op CANCEL_PIECE is handed to the dispatcher's feed loop after every received message as a barrier (so replies are observed before the attacker closes), and after the dispatcher closed a connection later Sends on it return 'conn closed' (Conn.Send itself chooses at random there)")
 	run.Assume("hang detection is a harness watchdog (120 s without progress = harness error), not an oracle")
-	for _, id := range []int64{p.cs.start[0] + 4200, p.cs.start[1] + 300, p.cs.start[3] + 11, p.cs.start[4] + 141, p.cs.start[5] + 40, p.cs.start[6] + 9} {
+	for _, id := range []int64{p.cs.start[0] + 4200, p.cs.start[1] + 300, p.cs.start[3] + 11, p.cs.start[4] + 141, p.cs.start[5] + 40, p.cs.start[6] + 9, p.cs.start[7] + 29, p.cs.start[7] + 1500, p.cs.start[8] + 30} {
 		if id < p.cs.total {
 			c := p.cs.get(id)
 			smp := map[string]interface{}{"id": c.ID, "family": c.Family, "victim": c.Victim, "desc": c.Desc}
+			if c.Dir != "" {
+				smp["direction"], smp["pieces"], smp["must_end"] = c.Dir, c.Pieces, c.MustEnd
+			}
 			if c.HS != nil {
 				smp["handshake_body_hex"] = fmt.Sprintf("%x", c.HS)
 			}
